@@ -4,6 +4,7 @@
 mod ast;
 mod c01;
 mod c02;
+mod c03;
 mod c04;
 mod c06;
 mod canon;
@@ -30,7 +31,7 @@ pub struct Check {
 }
 
 fn registry() -> Vec<Check> {
-	vec![c01::CHECK, c02::CHECK, c04::CHECK, c06::CHECK]
+	vec![c01::CHECK, c02::CHECK, c03::CHECK, c04::CHECK, c06::CHECK]
 }
 
 fn usage() -> ! {
